@@ -58,6 +58,7 @@ QUOTES = [
     {'A': ('9.96', '9.91'), 'B': ('25.40', '25.20')},
     {'A': ('0.37', '0.38'), 'B': ('0.52', '0.55')},
     {'A': ('10.50', '10.50'), 'B': ('25.50', '25.50')},   # symmetric (bid = ask)
+    {'A': ('98765.43', '98770.01'), 'B': ('0.0101', '0.0102')},   # very large / very small prices
 ]
 
 
